@@ -37,9 +37,21 @@ func NewNTLMAuth (database database.Database) (*NTLMAuth) {
         }
 }
 
-func (h *NTLMAuth) Authenticate(message *auth.NtlmRequest) (*auth.NtlmResponse, error) {
-	r := &auth.NtlmResponse{}
+func (h *NTLMAuth) Authenticate(message *auth.NtlmRequest) (r *auth.NtlmResponse, err error) {
+	r = &auth.NtlmResponse{}
 	r.Authenticated = false
+
+	// the ntlm library panics on some malformed messages (offsets and lengths
+	// pointing outside the message); treat that as a failed authentication
+	// instead of taking the authentication service down
+	defer func() {
+		if rec := recover(); rec != nil {
+			log.Printf("NTLM: recovered from panic while handling message: %v", rec)
+			h.removeContext(message.Session)
+			r = &auth.NtlmResponse{}
+			err = errors.New("Failed to parse NTLM Authorisation header")
+		}
+	}()
 
 	if message.Session == "" {
 		return r, errors.New("Invalid (empty) session specified")
@@ -50,7 +62,7 @@ func (h *NTLMAuth) Authenticate(message *auth.NtlmRequest) (*auth.NtlmResponse, 
 	}
 
 	c := h.getContext(message.Session)
-	err := c.Authenticate(message.NtlmMessage, r)
+	err = c.Authenticate(message.NtlmMessage, r)
 
 	if err != nil || r.Authenticated {
 		h.removeContext(message.Session)
